@@ -2,7 +2,7 @@
    on related states and related (portable, absolute) paths, in lock step:
    related states afterwards, same success / failure - except the branches listed in
    IsoRun.v (Chown / Lchown: not supported on Windows; RemoveAll through a regular file). *)
-From Avfs Require Import Base PathModel PathSpec PathCleanProofs PathProofs MemFS MemFile World IsoView
+From Avfs Require Import Base PathModel PathSpec PathCleanProofs PathProofs MemFS MemFile World DacLemmas IsoView
   PathEquiv IsoIter IsoSearch.
 Set Implicit Arguments.
 
@@ -245,6 +245,7 @@ Section Calls.
     destruct (Nat.eqb parent c); [apply crel_fail, F|].
     rewrite (perm_on_admin parent OpenWrite (fr_heap F) V).
     destruct (negb (perm_on (f_heap sl) parent OpenWrite (v_user vl))); [apply crel_fail, F|].
+    rewrite (sticky_admin _ _ _ _ (vr_aw V)), (sticky_admin _ _ _ _ (vr_al V)).
     rewrite (hrel_children parent (fr_heap F)).
     assert (Hdel : crel
       match alookup str_eqb (pi_part (sr_pi rl)) (children (f_heap sl) parent) with
@@ -582,6 +583,7 @@ Section Calls.
     destruct (sr_parent rln) as [np|]; [|apply crel_same, F].
     rewrite (perm_on_admin op OpenWrite (fr_heap F) V), (perm_on_admin np OpenWrite (fr_heap F) V).
     destruct (negb (perm_on (f_heap sl) op OpenWrite (v_user vl))); [apply crel_fail, F|].
+    rewrite !(sticky_admin _ _ _ _ (vr_aw V)), !(sticky_admin _ _ _ _ (vr_al V)), !andb_false_r. cbv iota.
     destruct (negb (Nat.eqb np op) && negb (perm_on (f_heap sl) np OpenWrite (v_user vl))); [apply crel_fail, F|].
     assert (Hmove : forall hw0 hl0, hrel hw0 hl0 ->
               crel (with_heap sw (remove_child (add_child hw0 np (pi_part (sr_pi rln)) oc) op (pi_part (sr_pi rlo))), ROk)
@@ -596,6 +598,7 @@ Section Calls.
               | None => (with_heap sw (remove_child (add_child (f_heap sw) np (pi_part (sr_pi rln)) oc) op (pi_part (sr_pi rlo))), ROk)
               | Some nc => match get (f_heap sw) nc with
                            | Some (NFile _ _ _ _) | Some (NSym _ _) =>
+                               if sticky_refuses (f_heap sw) np nc (v_user vw) then (sw, RFail EOpNotPermitted) else
                                (with_heap sw (remove_child (add_child (delete_node (f_heap sw) nc) np (pi_part (sr_pi rln)) oc) op (pi_part (sr_pi rlo))), ROk)
                            | _ => (sw, RFail EW_AccessDenied)
                            end
@@ -606,6 +609,7 @@ Section Calls.
               | None => (with_heap sl (remove_child (add_child (f_heap sl) np (pi_part (sr_pi rln)) oc) op (pi_part (sr_pi rlo))), ROk)
               | Some nc => match get (f_heap sl) nc with
                            | Some (NFile _ _ _ _) | Some (NSym _ _) =>
+                               if sticky_refuses (f_heap sl) np nc (v_user vl) then (sl, RFail EOpNotPermitted) else
                                (with_heap sl (remove_child (add_child (delete_node (f_heap sl) nc) np (pi_part (sr_pi rln)) oc) op (pi_part (sr_pi rlo))), ROk)
                            | _ => (sl, RFail EC_FileExists)
                            end
@@ -614,6 +618,7 @@ Section Calls.
         [apply crel_same, F|].
       destruct (sr_child rln) as [nc|]; [|apply Hmove, (fr_heap F)].
       destruct (hrel_get_cases nc (fr_heap F)) as [[Ew' El']|(nw' & nl' & Ew' & El' & Hn')]; rewrite Ew', El'; [apply crel_fail, F|].
+      rewrite (sticky_admin _ _ _ _ (vr_aw V)), (sticky_admin _ _ _ _ (vr_al V)).
       destruct Hn'; [apply crel_fail, F|apply Hmove, hrel_delete_node, (fr_heap F)|apply Hmove, hrel_delete_node, (fr_heap F)]. }
     destruct Hn as [ch mw ml|dt k i mw ml|lw ll mw ml Hlnk]; [|exact Hfile|exact Hfile].
     assert (Hnd' : match sr_child rln with Some nc => node_is_dir (f_heap sw) nc | None => false end
